@@ -1,6 +1,7 @@
 import Driver.Util
 import Driver.StoreCmds
 import BitcaskVerif.Resp.Server
+import BitcaskVerif.Resp.Client
 
 namespace Driver
 open Resp
@@ -29,6 +30,33 @@ def netStep (ns : NS) (toks : List String) : Option (NS × String) :=
       let (kv, out, e) := serve ns.kv ss
       some ({ kv := kv }, s!"{hexTok out} {hendStr e}")
     | none => none
+  | "cl.call" :: op :: rest =>
+    -- the client library: `cl.call get <k> reply=<hex|eof>` / `set <k> <v> reply=…` / `del <k,k,…> reply=…`
+    -- answers what the call returns and the request bytes it sends
+    let reply := rest.getLast?.bind fun t => if t.startsWith "reply=" then some (t.drop 6).toString else none
+    let args := rest.dropLast
+    let res : Option ReadRes := reply.bind fun r =>
+      if r == "eof" then some .cleanEnd else (bytesOfHex r).map fun bs => (readAll [bs]).headD .cleanEnd
+    let errStr : CliErr → String
+      | .storage m => "err storage:" ++ hexTok m
+      | .badFrame => "err badframe"
+      | .reset => "err reset"
+      | .frameError _ => "err frame"
+      | .panic => "err panic"
+    let cmd : Option Cmd := match op, args with
+      | "get", [k] => (bytesOfHex k).map .get
+      | "set", [k, v] => do let k ← bytesOfHex k; let v ← bytesOfHex v; pure (.set k v)
+      | "del", [ks] => ((ks.splitOn ",").mapM bytesOfHex).map .del
+      | _, _ => none
+    match cmd, res with
+    | some c, some r =>
+      let out := match c with
+        | .get _ => (match cliGet r with | .ok (some v) => "ok B:" ++ hexTok v | .ok none => "ok N" | .error e => errStr e)
+        | .set _ _ => (match cliSet r with | .ok () => "ok" | .error e => errStr e)
+        | .del _ => (match cliDel r with | .ok n => s!"ok I:{n}" | .error e => errStr e)
+      let req := match encode (Cmd.toFrame c) with | some b => hexTok b | none => "unencodable"
+      some (ns, out ++ " req=" ++ req)
+    | _, _ => none
   | ["kv.get", k] =>
     (bytesOfHex k).map fun k => (ns, match ns.kv k with | some v => showVal v | none => "nil")
   | ["kv.set", k, v] =>
